@@ -126,8 +126,8 @@ CLAIMS = {
              'caller-supplied chunk callback passes Some(..), a `then_some` whose condition evaluates to true, or a chunk forwarded from a '
              'stream that was itself requested with final_source = false; text-less emissions are proved unreachable (TEXT). A MapOptions with '
              'final_source != false exists only as a by-reference temporary of a stream call (OPTS-LIT) and cannot be built outside the crate '
-             '(W-OPTS compile-fail witness). NOT decided: sentence 1 (concatenated chunk text equals source()). Added after the independent breakage round: source() and rope() of ReplaceSource slice the inner text with the same normalised position skeleton (SIBLING-SPLICE) — a necessary condition of sentence 1 for cached replays, which re-split rope().',
-        technique='SCCP-style conditional constant propagation on MIR with closure/cell linking + escape check + compile-fail witness',
+             '(W-OPTS compile-fail witness). NOT decided: sentence 1 (concatenated chunk text equals source()). Added after the independent breakage round: source() and rope() of ReplaceSource slice the inner text with the same normalised position skeleton (SIBLING-SPLICE) — a necessary condition of sentence 1 for cached replays, which re-split rope(). Round 8: CURSOR-FORWARD - the column cursor of the source-map text splitter (the start of every WithIndices substring) is only ever reset to 0 at a line start or overwritten with a value the zone state proves >= the cursor, so no text is delivered twice when a map names columns out of order (defect F13 found and fixed). Decides that clause only, not that every character is delivered.',
+        technique='SCCP-style conditional constant propagation on MIR with closure/cell linking + escape check + compile-fail witness; zone-domain abstract interpretation of the text splitter cursor; sibling cross-check of the splice loops',
         design_ref='§5 C01'),
     'C04': dict(
         category='other',
